@@ -87,6 +87,20 @@ pub fn check_ledger(l: &Ledger, idx: usize, cov: &mut Coverage, kind: &str) -> V
                 }
                 Err(_) => continue,
             };
+            // the arrays tile the tick axis: each starts on a multiple of its width between the array that holds the lowest
+            // tick and the highest tick, so that no tick lives in two arrays and a swap walking from array to array meets
+            // every initialised tick
+            let width = 88 * sp;
+            let lowest = decode::MIN_TICK.div_euclid(width) * width;
+            if ta.start.rem_euclid(width) != 0 || ta.start < lowest || ta.start > decode::MAX_TICK {
+                out.push(Violation {
+                    property: "C05",
+                    class: "tick_array_off_the_grid".into(),
+                    detail: format!("pool {} (tick spacing {}) has a tick array {} starting at {}, which is not a multiple of {} between {} and {}", wk, sp, ak, ta.start, width, lowest, decode::MAX_TICK),
+                    event_idx: idx,
+                });
+                continue;
+            }
             for (i, t) in ta.ticks.iter().enumerate() {
                 let ti = ta.start + i as i32 * sp;
                 let en = net.get(&ti).cloned().unwrap_or(0);
